@@ -1504,7 +1504,18 @@ func c13IndexFieldsPlain(c *an.Ctx, rule string) {
 			if sl, isSlice := t.(*types.Slice); isSlice {
 				t = sl.Elem()
 			}
-			if b, isBasic := t.(*types.Basic); !isBasic || b.Kind() != types.String {
+			// a string, or a named string type without a decoding method of its own
+			b, isBasic := t.Underlying().(*types.Basic)
+			custom := false
+			for _, mt := range []types.Type{t, types.NewPointer(t)} {
+				ms := types.NewMethodSet(mt)
+				for j := 0; j < ms.Len(); j++ {
+					if n := ms.At(j).Obj().Name(); n == "UnmarshalJSON" || n == "UnmarshalText" {
+						custom = true
+					}
+				}
+			}
+			if !isBasic || b.Kind() != types.String || custom {
 				bad = append(bad, f.Name()+" "+f.Type().String())
 			}
 		}
